@@ -1189,6 +1189,8 @@ func runC12(c *Ctx) {
 	r.Rule("R12", "names are not special to queries and removals: an exported tracker method that creates nothing returns nil / false only under a condition computed from tracker state (a lookup that found nothing, a membership test, the own-record test), never because of the argument's value alone")
 	r.Rule("R14", "a mode change is applied whatever its argument says: the mode parsers decide only on the mode character, the sign, the number of arguments left and whether the named nick is on the channel - never on the text of an argument or of the stored value (the model removes a key on -k whichever key the line quotes)")
 	c.modeDecisionsRule("R14")
+	r.Rule("R16", "a mode character changes its own flag and nothing else, in the direction of the sign in force: every store to a boolean field of ChanMode / NickMode in the mode parsers stores the sign variable (never a constant), each such field is stored at one site only, and the sign starts out as 'remove' (letters before the first '+' or '-' clear, as in the model)")
+	c.modeFlagStoresRule("R16")
 	r.Rule("R15", "every operation returns: no value whose String / Error / Format method takes the tracker lock (the tracker itself) is handed to a logging or fmt call while that lock is held - a logger that formats its arguments would acquire the lock a second time on the same stack (shared with C14.R1: the mutex is never acquired while already held)")
 	c.formatterReacquireRule("R15", c.stateFuncs())
 	r.Rule("R13", "every name the server uses can be tracked: a method that creates a nick or a channel (NewNick, NewChannel) refuses only the empty name and a name the tracker already holds - every condition its nil returns depend on is an emptiness test of an argument or is computed from tracker state (no alphabet or format check: a legal nick such as one with a backtick would never be tracked)")
@@ -1473,6 +1475,8 @@ func runC13(c *Ctx) {
 	c.closedEffectsRule("R8")
 	r.Rule("R9", "the tracker can only hold a channel's modes and its users' details if the client asks: once the client's own JOIN has created the channel, every path of the JOIN handler sends MODE and WHO for it (directly or through a helper that does so on every path) - a query put in a queue whose state survives a dropped connection is never sent")
 	c.joinQueriesRule("R9")
+	r.Rule("R10", "the MODE and WHO queries the tracker depends on reach the server: Raw enqueues every line, by a plain blocking send in its own body on every path (shared with C09.R1) - a Raw that sheds load when the queue is full leaves joined channels without modes and users without details")
+	c.rawSenderRule("R10")
 	r.Rule("R7", "every name the server uses can be tracked: a method that creates a nick or a channel (NewNick, NewChannel) refuses only the empty name and a name the tracker already holds - every condition its nil returns depend on is an emptiness test of an argument or is computed from tracker state (no alphabet or format check: a legal nick such as one with a backtick would never be tracked) (shared with C12.R13)")
 	c.stateDecidedRule("", "R7")
 
@@ -2505,4 +2509,85 @@ func (c *Ctx) joinQueriesRule(rule string) {
 		}
 	}
 	r.Floor(rule, "NewChannel sites in the JOIN handler", n, 1)
+}
+
+// modeFlagStoresRule: C12.R16.
+func (c *Ctx) modeFlagStoresRule(rule string) {
+	r := c.R
+	nSt, nPhi := 0, 0
+	for _, name := range []string{"(*channel).parseModes", "(*nick).parseModes"} {
+		fn := c.Func(c.State, name)
+		if !r.Anchor(rule, name, fn != nil) {
+			continue
+		}
+		frames := []*ssa.Function{fn}
+		reach := c.Closure([]*ssa.Function{fn}, func(from *ssa.Function, e Edge) bool {
+			return e.Kind == EdgeCall && !e.Site.Common().IsInvoke() && e.Callee.Package() == c.State
+		})
+		for _, f := range reach.Order {
+			if f != fn && c.InModuleFn(f) {
+				frames = append(frames, f)
+			}
+		}
+		frames = append(frames, fn.AnonFuncs...)
+		perField := map[*types.Var][]*ssa.Store{}
+		for _, f := range frames {
+			funcInstrs(f, func(in ssa.Instruction) {
+				st, ok := in.(*ssa.Store)
+				if !ok {
+					return
+				}
+				fa, ok := st.Addr.(*ssa.FieldAddr)
+				if !ok {
+					return
+				}
+				fv, _ := fieldOf(fa)
+				if fv == nil {
+					return
+				}
+				if b, isB := fv.Type().Underlying().(*types.Basic); !isB || b.Kind() != types.Bool {
+					return
+				}
+				pt, isP := fa.X.Type().Underlying().(*types.Pointer)
+				if !isP {
+					return
+				}
+				nt, isN := pt.Elem().(*types.Named)
+				if !isN || (nt.Obj().Name() != "ChanMode" && nt.Obj().Name() != "NickMode" && nt.Obj().Name() != "ChanPrivs") {
+					return
+				}
+				nSt++
+				perField[fv] = append(perField[fv], st)
+				_, isConst := st.Val.(*ssa.Const)
+				r.Add(rule, "flag-store:"+nt.Obj().Name()+"."+fv.Name()+"@"+c.FuncKey(f), c.InstrPos(st), c.FuncKey(f), "the flag is set to the sign of its own mode character", !isConst, "stores the constant "+st.Val.String()+": another character's flag is forced")
+			})
+			// the sign variable: a boolean loop-header phi fed with both constants; its value on entry is false
+			funcInstrs(f, func(in ssa.Instruction) {
+				ph, ok := in.(*ssa.Phi)
+				if !ok || !c.IsLoopHeader(ph.Block()) {
+					return
+				}
+				if b, isB := ph.Type().Underlying().(*types.Basic); !isB || b.Kind() != types.Bool {
+					return
+				}
+				nPhi++
+				li := c.Loops(f)
+				for i, e := range ph.Edges {
+					pred := ph.Block().Preds[i]
+					if pred == ph.Block() || li.headers[pred][ph.Block()] {
+						continue // back edge
+					}
+					k, isK := e.(*ssa.Const)
+					okE := isK && k.Value != nil && k.Value.String() == "false"
+					r.Add(rule, "sign-starts-remove:"+c.FuncKey(f), c.InstrPos(ph), c.FuncKey(f), "the sign in force before the first '+' or '-' is 'remove'", okE, "initial value "+e.String())
+				}
+			})
+		}
+		for fv, sts := range perField {
+			if len(sts) > 1 {
+				r.Add(rule, "flag-one-site:"+fv.Name(), c.InstrPos(sts[1]), c.FuncKey(sts[1].Parent()), "each mode flag is written at one site", false, fmt.Sprintf("%s is stored at %d sites", fv.Name(), len(sts)))
+			}
+		}
+	}
+	r.Add(rule, "flag-stores-examined", "-", "", "stores to mode flags and sign variables examined", nSt+nPhi > 0, fmt.Sprintf("%d flag stores, %d sign variables", nSt, nPhi))
 }
